@@ -56,6 +56,16 @@ CHECKS = {
             "Conjectured estimate compared with the formula transcribed from the documentation on the complete lattice queries 1..255 x blowup 2..128 x grinding 0..32 x extension 1..3 x trace 2^3..2^(31-log2 blowup) x {62,64,128}-bit fields x collision resistance 96..128 (FRI options rotated in quick, full product in thorough). Both estimates checked for monotonicity along the whole queries / grinding / extension / collision-resistance axes from generated base points (proven estimate: sampled). Acceptance policy checked on real proofs of a small AIR over the three fields: Insufficient* iff level < minimum, UnacceptableProofOptions iff not in the set, forged field moduli never accepted.",
             "No independent oracle for the proven estimate (monotonicity, cap, no panic, the repository's 5 pinned values only). Collision resistances other than 96/124/128 via a user-defined Hasher. Real proofs limited to traces <= 2^6 and grinding <= 10. Lengths Context::new refuses are outside the claim. Panics on forged contexts are counted as 'not accepted' (C06's subject).",
             "DESIGN.md 3/C18"),
+    "C03": ("fault_enumeration", "vf-stark",
+            "property-based testing / fault injection (proptest + exhaustive enumeration): byte-level and adaptive mutations of accepted proofs; oracle = parse, compare decoded content, verify",
+            "Fault enumeration on accepted proofs of generated GenAir instances: every single-bit flip of a basket of small proofs (exhaustive), structure-aware mutations of every field of the layout (boundary values for every length/count/scalar, zero/fill/flip/rotate/swap of data blocks i.e. reordered openings, truncation and extension of every length-prefixed component with and without prefix fix-up, cuts, trailing bytes), and consistency-preserving substitutions computed from the verifier's query positions (FRI remainder + c*V(queried points), an unused GKR proof, trailing bytes in the Lagrange OOD block, other nonces). A mutant must fail to parse, decode to the same proof (excluded), fall under the listed exclusions, or be rejected.",
+            "Exclusions: FRI partition count edits (listed by the property); a nonce edit that satisfies the proof-of-work condition and provably (coin replay) yields the same query positions. Panics count as 'not accepted' here (C06's subject). Collision resistance of the hashers assumed.",
+            "DESIGN.md 3/C03"),
+    "C06": ("fault_enumeration", "vf-stark",
+            "property-based testing / fuzzing-style mutation (proptest + exhaustive enumeration) with panic capture, measuring allocator, fatal-signal containment and watchdog",
+            "Fault enumeration over hostile inputs: for a basket of small honest proofs truncation at every offset, every byte replaced by 0x00/0x01/0x7f/0x80/0xff, every length/count/size/scalar field set to 0/1/max-1/max/+-1/*2 (exhaustive; thorough adds every bit flip); chains of 1..3 structure-aware mutations of generated proofs over all 12 field/hasher pairs; proofs spliced from the components of two different proofs; raw byte strings with and without a valid context prefix. Parse and verify (against the proof's own and against another statement) must return Ok/Err: any panic (overflow checks on), any single allocation above max(16 MiB, 4096 x input), any fatal signal, absurd allocation request or non-termination is a violation with the input as replay file.",
+            "The harness' own Air is total (falls back to a fixed AIR when the proof's trace shape does not match the statement), so panics are the library's. Two open known findings: assertions of AirContext reached through the infallible Air::new with untrusted options (API-level, see known_findings.json). Out-of-bounds reads inside unsafe code that do not crash are not observable here (no sanitizer in this tier).",
+            "DESIGN.md 3/C06"),
 }
 
 NOT_YET = {
